@@ -406,6 +406,10 @@ func runHybridHistory(r *rand.Rand, o hybridOpts, t *Trace) *Case {
 			}
 			var res []comet.HybridSearchResult
 			var e error
+			if r.Intn(5) == 0 { // the builder is executed twice: the second answer is the one that is judged
+				catchPanic(func() { s.Execute() })
+				t.Stat("hybrid.search_builder_reused")
+			}
 			pan := catchPanic(func() { res, e = s.Execute() })
 			code := errCodeHybrid(e)
 			if pan {
